@@ -3,6 +3,7 @@
 import ast
 
 from .astutil import call_name
+from .core import AnalysisError
 
 _CONCRETE_BUILTINS = {"float": "float64 only (float32 / float16 arrays are not matched)",
                       "int": "the platform integer only (int8 ... int32 / unsigned arrays are not matched)",
@@ -192,6 +193,18 @@ def lost_loop_updates(func):
             if isinstance(x, ast.Name) and isinstance(x.ctx, ast.Store):
                 assigned.add(x.id)
         for st in lp.body:
+            # a truth-valued flag that every iteration overwrites (`found = x.y is not None` instead of `if ..: found = True`):
+            # initialised with a bool before the loop, assigned a test of the loop variable, not read inside the iteration
+            if isinstance(st, ast.Assign) and len(st.targets) == 1 and isinstance(st.targets[0], ast.Name) \
+                    and isinstance(st.value, (ast.Compare, ast.BoolOp)) and (_names(st.value) & tvars) and st.targets[0].id not in _names(st.value):
+                flag = st.targets[0].id
+                init = [x for x in ast.walk(func) if isinstance(x, ast.Assign) and any(isinstance(t, ast.Name) and t.id == flag for t in x.targets)
+                        and isinstance(x.value, ast.Constant) and isinstance(x.value.value, bool) and not any(x is y for y in ast.walk(lp))]
+                read_inside = any(isinstance(x, ast.Name) and x.id == flag and isinstance(x.ctx, ast.Load) for b in lp.body for x in ast.walk(b))
+                stores_inside = [x for x in ast.walk(lp) if isinstance(x, ast.Name) and x.id == flag and isinstance(x.ctx, ast.Store)]
+                if init and not read_inside and len(stores_inside) == 1:
+                    out.append((lp, st))
+                continue
             if not (isinstance(st, ast.Assign) and len(st.targets) == 1 and isinstance(st.targets[0], (ast.Subscript, ast.Attribute))):
                 continue
             tgt = st.targets[0]
@@ -407,4 +420,70 @@ def validation_before_mutation(ctx, rel, rule, raising, method_names=("set_struc
                (f"`{ast.unparse(late[0])[:60]}` can refuse its input, but the object was already changed in place at line "
                 f"{stmts_[first].lineno}: after the error the previous content is gone (a damaged file is written later)" if late else ""), f.lineno)
     ctx.floor(f"{rule}:{rel}", n, 0)
+    return n
+
+
+def constructors_leave_arguments(ctx, rel, rule, min_classes=1):
+    """a constructor reads what it is given: it does not store into, or change in place, the containers and arrays of its caller
+    (effects.param_mutations over the module: `columns[key] = ..` on the caller's dict, `values.sort()`, ...)"""
+    from .effects import param_mutations
+    s = ctx.src(rel)
+    muts = param_mutations(s.funcs)
+    n = 0
+    for q, f in s.funcs.items():
+        if q.split(".")[-1] not in ("__init__", "__cinit__") or q.count(".") != 1:
+            continue
+        n += 1
+        bad = {p: w for p, w in muts.get(q, {}).items() if p not in ("self", "cls")}
+        first = next(iter(bad.items()), None)
+        ctx.ob(rule, rel, q, "arguments changed in place: " + (", ".join(sorted(bad)) or "none"), not bad,
+               (f"the constructor changes its caller's `{first[0]}` in place ({first[1][0][1]} at line {first[1][0][0]}): the caller's object and "
+                "every other object built from it are affected" if first else ""), f.lineno)
+    ctx.floor(f"{rule}:{rel}", n, min_classes)
+    return n
+
+
+def derived_state_refreshed(ctx, rel, cls, rule, content_attr="lines", exempt=()):
+    """an object that keeps values computed from its content (`self._index = ..` built from `self.lines`, memoised results) must
+    recompute or reset every one of them whenever the content is replaced: each method that assigns `self.<content_attr>` assigns,
+    itself or through the `self.` helpers it calls, every private attribute that any other method of the class stores"""
+    s = ctx.src(rel)
+    meths = {q.split(".")[-1]: f for q, f in s.funcs.items() if q.startswith(cls + ".") and q.count(".") == 1}
+    cnode = s.classes.get(cls)
+    if cnode is None or not meths:
+        raise AnalysisError(f"anchor vanished: class {cls} in {rel}")
+
+    def stored(fn):
+        return {t.attr for st in ast.walk(fn) if isinstance(st, (ast.Assign, ast.AugAssign, ast.AnnAssign))
+                for t in (st.targets if isinstance(st, ast.Assign) else [st.target])
+                if isinstance(t, ast.Attribute) and isinstance(t.value, ast.Name) and t.value.id in ("self", "file") and t.attr.startswith("_")}
+    all_attrs = set()
+    for n_, f in meths.items():
+        if n_ not in ("__init__",):
+            all_attrs |= stored(f)
+    all_attrs |= {st.targets[0].id for st in cnode.body if isinstance(st, ast.Assign) and isinstance(st.targets[0], ast.Name) and st.targets[0].id.startswith("_")
+                  and isinstance(st.value, ast.Constant) and st.value.value is None}
+
+    def closure(name, seen=None):
+        seen = seen if seen is not None else set()
+        if name in seen or name not in meths:
+            return set()
+        seen.add(name)
+        out = stored(meths[name])
+        for c in ast.walk(meths[name]):
+            if isinstance(c, ast.Call) and isinstance(c.func, ast.Attribute) and isinstance(c.func.value, ast.Name) and c.func.value.id in ("self", "file"):
+                out |= closure(c.func.attr, seen)
+        return out
+    n = 0
+    for name, f in meths.items():
+        replaces = any(isinstance(st, ast.Assign) and any(isinstance(t, ast.Attribute) and t.attr == content_attr and isinstance(t.value, ast.Name)
+                                                          and t.value.id == "self" for t in st.targets) for st in ast.walk(f))
+        if not replaces or name == "__init__":
+            continue
+        n += 1
+        missing = sorted(all_attrs - closure(name) - set(exempt))
+        ctx.ob(rule, rel, f"{cls}.{name}", f"replaces self.{content_attr}; derived attributes {sorted(all_attrs)}", not missing,
+               f"`self.{missing[0] if missing else ''}` is computed from the content elsewhere in the class but neither recomputed nor reset here: after "
+               f"{name}() it still describes the previous content", f.lineno)
+    ctx.floor(f"{rule}:{rel}", n, 1)
     return n
